@@ -43,6 +43,12 @@ def load_variants() -> List[dict]:
         out.append({"prop": pr, "id": "global/comparison-operands-flipped", "kind": "B", "rule": "", "transform": "flip_comparisons"})
         for tname in ("return_via_local", "split_tuple_assign", "expand_augassign", "listcomp_to_loop", "drop_else_after_return"):
             out.append({"prop": pr, "id": f"global/{tname.replace('_', '-')}", "kind": "B", "rule": "", "transform": tname})
+    # behaviour-preserving refactorings written by independent sub-agents (selfval/benign_patches/*.diff): every check must stay silent on each
+    bp = VERIF / "selfval" / "benign_patches"
+    if bp.is_dir():
+        for pf in sorted(bp.glob("*.diff")):
+            for pr in props:
+                out.append({"prop": pr, "id": f"global/refactoring/{pf.stem}", "kind": "B", "rule": "", "patch": str(pf)})
     # regressions: reverse patches of the fix commits (real defects of the pinned tree)
     for r in getattr(mod, "REGRESSIONS", []):
         out.append(dict(r, kind="M", patch=str(VERIF / "selfval" / "regressions" / r["patch"])))
